@@ -17,8 +17,8 @@ def run(ctx):
     counters = {}
     scan = lambda se: runner.parse_tsan(se, counters)
     env = runner.tsan_env()
-    ctx.fan(exe, "pool", 1500 if th else 96, chunk=1 if not th else 4, timeout=300, env=env, scan_stderr=scan)
-    ctx.fan(exe, "reader", 1000 if th else 64, chunk=1 if not th else 4, timeout=300, env=env, scan_stderr=scan)
+    ctx.fan(exe, "pool", 1500 if th else 256, chunk=1 if not th else 4, timeout=300, env=env, scan_stderr=scan)
+    ctx.fan(exe, "reader", 1000 if th else 160, chunk=1 if not th else 4, timeout=300, env=env, scan_stderr=scan)
     ctx.fan(exe, "crc", 8 if th else 2, chunk=1, timeout=120, env=env, scan_stderr=scan)
     ctx.add_stats(counters)
     s = ctx.stats
@@ -30,5 +30,5 @@ def run(ctx):
              "injection; (reader) 4-12 threads on one open reader (six compression types, verify_checksums on/off) doing scans, get, get_prefix, get_range, seek storms through private iterators; (crc) concurrent mtbl_crc32c; "
              "every distinct TSan data-race report involving library frames is a violation; distinct_nontrivial = distinct workload instances",
         evaluations=s.get("pool.runs", 0) + s.get("reader.runs", 0) + s.get("crc.runs", 0),
-        floors={"pool.runs": 80, "reader.runs": 50, "pool.block_jobs": 10000, "reader.ops": 200000, "pool.callers.6": 1, "pool.size.1": 1, "reader.verify.1": 5},
+        floors={"pool.runs": 200, "reader.runs": 120, "pool.block_jobs": 10000, "reader.ops": 200000, "pool.callers.6": 1, "pool.size.1": 1, "reader.verify.1": 5},
         extra={"tsan_reports_by_kind": {k: v for k, v in s.items() if k.startswith("tsan.")}, "block_jobs_through_pool": s.get("pool.block_jobs", 0), "reader_ops": s.get("reader.ops", 0)})
